@@ -60,11 +60,12 @@ type Graph struct {
 	Defers []*ast.DeferStmt
 	sw     map[*ast.CaseClause]ast.Stmt
 
-	flagsOnce sync.Once
-	flags     bool
-	untOnce   sync.Once
-	unt       map[types.Object]bool
-	flagVars  map[types.Object]bool // the constant-valued locals some branch tests
+	flagsOnce   sync.Once
+	flags       bool
+	untOnce     sync.Once
+	trackGaveUp bool // flag tracking exceeded its state bound once (see ReachFromTracked)
+	unt         map[types.Object]bool
+	flagVars    map[types.Object]bool // the constant-valued locals some branch tests
 }
 
 // Graph returns the control-flow graph of the function body.
